@@ -5,7 +5,7 @@ ID = "C12"
 BIN = "c12"
 PROOF_MODULES = ["Compute.Props.C12"]
 REQUIRED_THEOREMS = ["Cv.C12.broadcast_total", "Cv.C12.broadcast_shape", "Cv.C12.broadcast_entry"]
-RULE = ("every shape pair with rows, cols in 1..6 (1296 pairs) x 4 operators x {mm, mv, vm} x 4 ownership "
+RULE = ("size-boundary shapes (7..9, 15..17, 31..33, 40, products around 1024) against row / column / scalar partners in both orders; every shape pair with rows, cols in 1..6 (1296 pairs) x 4 operators x {mm, mv, vm} x 4 ownership "
         "forms with distinct entries, plus random shapes up to 40x40; non-trivial = distinct (op, kind, shapes) class")
 EXHAUSTIVE = {"quick": False, "thorough": False}
 NOT_PROVED = []
@@ -49,6 +49,24 @@ def gen(rng, tier):
                     if r1 == 1:
                         op, own = rng.choice(OPS), rng.randint(0, 3)
                         lines.append(mk(op, "vm", own, 1, c1, r2, c2, data(rng, c1, 1.0), data(rng, r2 * c2, 100.0)))
+    # size-boundary strata (block / unroll / parallel fast-path boundaries seen in seeded changes: 8, 16, 32, 1024 …)
+    edge = [7, 8, 9, 15, 16, 17, 31, 32, 33, 40] if tier == "quick" else [7, 8, 9, 15, 16, 17, 23, 24, 25, 31, 32, 33, 39, 40, 63, 64, 65]
+    bshapes = []
+    for c in edge:
+        for r in ([2, 9, 33] if tier == "quick" else [2, 8, 9, 17, 32, 33]):
+            bshapes += [((r, c), (1, c)), ((1, c), (r, c)), ((r, c), (r, 1)), ((r, 1), (r, c)), ((r, 1), (1, c)), ((1, c), (r, 1)),
+                        ((r, c), (1, 1)), ((1, 1), (r, c)), ((r, c), (r, c))]
+    for (r, c) in [(32, 32), (31, 33), (26, 40), (40, 26), (33, 32), (1, 1024), (1024, 1)]:
+        bshapes += [((1, c), (r, c)), ((r, c), (1, c)), ((r, 1), (r, c)), ((r, c), (r, 1))]
+    for k, ((r1, c1), (r2, c2)) in enumerate(bshapes):
+        for op in (OPS if tier == "thorough" else [OPS[k % 4], OPS[(k + 1) % 4]]):
+            own = (k + len(op)) % 4
+            lines.append(mk(op, "mm", own, r1, c1, r2, c2, data(rng, r1 * c1, 1.0), data(rng, r2 * c2, 100.0)))
+            if r2 == 1:
+                lines.append(mk(op, "mv", own, r1, c1, 1, c2, data(rng, r1 * c1, 1.0), data(rng, c2, 100.0)))
+            if r1 == 1:
+                lines.append(mk(op, "vm", own, 1, c1, r2, c2, data(rng, c1, 1.0), data(rng, r2 * c2, 100.0)))
+    cover["boundary_shape_lines"] = len(bshapes)
     nrand = 300 if tier == "quick" else 6000
     for _ in range(nrand):
         r, c = rng.randint(1, 40), rng.randint(1, 40)
